@@ -24,7 +24,7 @@ P_NOTE = ("Trusted: Lean kernel + standard axioms; rustc's const-assertion evalu
 CLAIMS = {
  "C01": ("Kernel-checked theorem C01_disjoint over the Lean model of builder + all four native strategies: for every request "
          "history with every per-close strategy choice, all data of every variant are pairwise disjoint (induction: layout "
-         "invariant LInv + gap invariant GInv); C01_no_strategy_panic. Model tied to /repo by channel L on every run.", "4 C01", L_NOTE,
+         "invariant LInv + gap invariant GInv); C01_no_strategy_panic; C01_no_shared_byte (byte form on the built definition). Model tied to /repo by channel L on every run.", "4 C01", L_NOTE,
          "Lean 4 theorem (invariant by induction over request histories) + model/implementation correspondence"),
  "C02": ("Theorems C02_aligned, C02_contained, C02_record_align, C02_order(_strict), C02_address_aligned_contained (absolute addresses under an aligned base) over the same model (LInv gives alignment and "
          "address order incl. zero-size data; capacity = fold over variants; record alignment = max of powers of two).", "4 C02", L_NOTE,
